@@ -18,6 +18,15 @@ from harness import exact, matern, priors
 from harness.report import Report
 
 
+def _relief(j, every=15):
+    """every replayed instance compiles a handful of fresh XLA executables; a long run exhausts the process' memory
+    mappings (LLVM: 'Cannot allocate memory', then a segmentation fault) unless the compilation caches are dropped"""
+    if j % every == 0:
+        import jax
+
+        jax.clear_caches()
+
+
 def run(tier: str, seed: int) -> int:
     rep = Report("C09", tier, seed)
     rep.rule = (
@@ -45,6 +54,7 @@ def run(tier: str, seed: int) -> int:
     for j, inst in enumerate(iw):
         if j not in res:
             continue
+        _relief(j)
         bad = priors.check_iwp(inst, res[j])
         rep.traces += 1
         rep.add_case(("iwp", j) if inst["q"] >= 1 else None)
@@ -65,6 +75,7 @@ def run(tier: str, seed: int) -> int:
     for j, inst in enumerate(allm):
         if j not in res:
             continue
+        _relief(j)
         if inst["type"] == "matrix":
             bad = priors.check_expgram_matrix(inst, res[j])
             fam = "gram_util"
@@ -88,6 +99,7 @@ def run(tier: str, seed: int) -> int:
     for j, inst in enumerate(mts):
         if j not in res:
             continue
+        _relief(j)
         try:
             bad = matern.check(inst, res[j])
         except Exception as e:  # raised inside the library on a legal configuration
@@ -115,6 +127,7 @@ def run(tier: str, seed: int) -> int:
         js = [j for j, o in enumerate(owner) if o == k]
         if not all(j in res for j in js):
             continue
+        _relief(k)
         try:
             bad = matern.ou_check(inst, [res[j] for j in js])
         except Exception as e:  # raised inside the library on a legal configuration
